@@ -4,7 +4,8 @@
    of the resolved content is C06's trie_canonical (Properties/C06.v), restated here as root_is_mpt. *)
 From Coq Require Import List NArith Bool Arith Lia.
 From Verif Require Import Trie.Model Trie.Keys Trie.ProofsWf Trie.Theorems Store.Model Store.Proofs Store.ProofsCommit
-  Store.ProofsReach Store.ProofsPrune Store.ProofsLink Store.ProofsTie Store.ExamplesPrune.
+  Store.ProofsReach Store.ProofsPrune Store.ProofsLink Store.ProofsTie Store.ExamplesPrune
+  Store.WorkTrie Store.ProofsWork Store.ExamplesWork.
 Import ListNotations.
 Open Scope N_scope.
 
@@ -267,6 +268,117 @@ Section C12.
   Proof. exact (canonical_get V t1 t2). Qed.
 End C12.
 
+(* ---- the working-trie side of trie.go (Store/WorkTrie.v: tryGet / insert / delete over trees whose untouched subtrees are
+   references loaded lazily through the reader, with dirty flags) and histories given as lists of operations ----
+   `Good g Old p n t`: the working trie n at path p denotes t through the reader g, is coherent with it (every clean node's
+   blob is its encoding), and every clean node and reference of n is in Old — any set of stored nodes the reader answers,
+   closed under what resolving them follows, made of well-formed full / short blobs. *)
+Section C12_ops.
+  Variable V : Type.
+  Variable veqb : V -> V -> bool.
+  Hypothesis veqb_sound : forall a b, veqb a b = true -> a = b.
+
+  (* Trie.Update on a handle refines C06's trie_update: it never fails (no MissingNodeError), the new root denotes
+     trie_update of what the old one denoted — for every key and every trie, no well-formedness needed —, the handle
+     stays coherent, and every clean node / reference of the result is still in Old (created nodes are dirty, retained
+     subtrees keep their absolute paths) *)
+  Theorem worktrie_update_refines (g : getter V) (Old : list nat -> ver -> snode V -> Prop) w key ov t :
+    (forall q w b, Old q w b -> g q w = Some b) ->
+    (forall q w b q1 w1 b1, Old q w b -> Reach V g q b q1 w1 b1 -> Old q1 w1 b1) ->
+    (forall q w b, Old q w b -> blob_ok V b) ->
+    Good V g Old [] w t ->
+    exists w', wt_update V veqb g w key ov = Some w' /\ Good V g Old [] w' (trie_update V veqb t key ov).
+  Proof. intros H1 H2 H3. exact (wt_update_refines V veqb veqb_sound g Old H1 H2 H3 w key ov t). Qed.
+
+  (* Trie.Get returns C06's trie_get and only replaces references by the (clean) nodes they load *)
+  Theorem worktrie_get_refines (g : getter V) (Old : list nat -> ver -> snode V -> Prop) w key t :
+    (forall q w b, Old q w b -> g q w = Some b) ->
+    (forall q w b q1 w1 b1, Old q w b -> Reach V g q b q1 w1 b1 -> Old q1 w1 b1) ->
+    (forall q w b, Old q w b -> blob_ok V b) ->
+    Good V g Old [] w t ->
+    exists val w', wt_get V g w key = Some (val, w') /\ val = trie_get V t key /\ Good V g Old [] w' t.
+  Proof. intros H1 H2 H3. exact (wt_get_refines V g Old H1 H2 H3 w key t). Qed.
+
+  (* the recursion itself, with the dirty flag it reports: w_insert / w_delete answer exactly (dirty, node) of C06's
+     insert / delete at every fuel; when nothing changed (`false`) the old node is kept — or, if it was a reference,
+     the node it resolved to *)
+  Theorem worktrie_insert_refines (g : getter V) (Old : list nat -> ver -> snode V -> Prop) f n p key v t :
+    (forall q w b, Old q w b -> g q w = Some b) ->
+    (forall q w b q1 w1 b1, Old q w b -> Reach V g q b q1 w1 b1 -> Old q1 w1 b1) ->
+    (forall q w b, Old q w b -> blob_ok V b) ->
+    Good V g Old p n t ->
+    exists d n', w_insert V veqb g f n p key (WValue v) = Some (d, n') /\
+      Good V g Old p n' (snd (insert V veqb f t key (Value v))) /\ fst (insert V veqb f t key (Value v)) = d /\
+      (d = false -> n' = n \/ exists w, n = WRef w /\ w_resolve_ref V g p w = Some n').
+  Proof. intros H1 H2 H3. exact (w_insert_ok V veqb veqb_sound g Old H1 H2 H3 f n p key v t). Qed.
+
+  Theorem worktrie_delete_refines (g : getter V) (Old : list nat -> ver -> snode V -> Prop) f n p key t :
+    (forall q w b, Old q w b -> g q w = Some b) ->
+    (forall q w b q1 w1 b1, Old q w b -> Reach V g q b q1 w1 b1 -> Old q1 w1 b1) ->
+    (forall q w b, Old q w b -> blob_ok V b) ->
+    Good V g Old p n t ->
+    exists d n', w_delete V g f n p key = Some (d, n') /\
+      Good V g Old p n' (snd (delete V f t key)) /\ fst (delete V f t key) = d /\
+      (d = true -> not_ref V n') /\
+      (d = false -> n' = n \/ exists w, n = WRef w /\ w_resolve_ref V g p w = Some n').
+  Proof. intros H1 H2 H3. exact (w_delete_ok V g Old H1 H2 H3 f n p key t). Qed.
+
+  (* `derived` discharged: on any state satisfying the chain invariant, the handle opened at the head root and driven by
+     ANY list of reads / updates / deletes exists (no operation fails), denotes what the operations give on the head's
+     trie, is coherent with the store, and all its clean nodes and references are nodes of the head root *)
+  Theorem handle_derived_from_ops (s : store V) name chain P ops :
+    Inv V s name chain P ->
+    exists w, wt_run V veqb (sget V s name) ops (head_handle V chain) = Some w /\
+      WRes V (sget V s name) [] w (lrun veqb ops (head_trie V chain)) /\ Coh V (sget V s name) [] w /\
+      derived V (sget V s name) chain w.
+  Proof. intros HI. exact (handle_from_ops V veqb veqb_sound s name chain P HI ops). Qed.
+
+  (* the canonical commit step with its working-trie premises (Coh, WRes, is_inner, derived) gone: operations on valid
+     keys that leave a non-empty trie, then Trie.Commit (root resolved, hasher.store) — commit_ops computes the store *)
+  Theorem ops_commit_step name (s : store V) chain P newv big skip ops :
+    History V name s chain P -> all_wfc V chain ->
+    hist_fresh V s name newv -> P <= fst newv ->
+    match chain with [] => True | vt :: _ => fst (fst vt) < fst newv end ->
+    Forall (hop_valid V) ops -> lrun veqb ops (head_trie V chain) <> Nil ->
+    History V name (commit_ops V veqb s name chain newv big skip ops)
+            ((newv, lrun veqb ops (head_trie V chain)) :: chain) P /\
+    wfc V (lrun veqb ops (head_trie V chain)).
+  Proof. exact (commit_ops_step V veqb veqb_sound name s chain P newv big skip ops). Qed.
+
+  (* OpsHistory: History with every canonical commit given by its operation list (no hypothesis about a working trie):
+     it is a History, and every trie of its chain is well-formed *)
+  Theorem ops_history_is_history name (s : store V) chain P :
+    OpsHistory V veqb name s chain P -> History V name s chain P /\ all_wfc V chain.
+  Proof. exact (ops_history_sound V veqb veqb_sound name s chain P). Qed.
+
+  (* prune_preserves_recent_rounds over histories given as operation lists *)
+  Theorem prune_preserves_recent_rounds_from_ops name (s : store V) chain P v t :
+    OpsHistory V veqb name s chain P -> In (v, t) chain ->
+    Res V (sget V s name) [] (SRef v) t /\
+    (exists f0, forall f, (f0 <= f)%nat -> open_root V f s name v = Some t) /\ wfc V t.
+  Proof. exact (ops_history_roots_open V veqb veqb_sound name s chain P v t). Qed.
+
+  Theorem prune_preserves_recent_from_ops name (s : store V) newer anchor older P base target cps f nodes v t :
+    OpsHistory V veqb name s (newer ++ anchor :: older) P ->
+    P <= base -> base <= target -> base mod hf V s = 0 -> target mod hf V s = 0 ->
+    Forall (fun vt => target <= fst (fst vt)) newer -> fst (fst anchor) < target ->
+    checkpoint_nodes V f s name (fst anchor) base = Some nodes ->
+    cps_for V name cps nodes ->
+    In (v, t) (live_after V name newer anchor) ->
+    exists f0, forall f', (f0 <= f')%nat ->
+      open_root V f' s name v = Some t /\ open_root V f' (prune V s cps base target) name v = Some t.
+  Proof. exact (ops_prune_round_preserves V veqb veqb_sound name s newer anchor older P base target cps f nodes v t). Qed.
+
+  (* root_is_mpt with its wfc premises discharged from the histories: two live roots with the same content resolve to
+     the same tree *)
+  Theorem root_is_mpt_from_ops name (s : store V) chain P v t name' (s' : store V) chain' P' v' t' :
+    OpsHistory V veqb name s chain P -> In (v, t) chain ->
+    OpsHistory V veqb name' s' chain' P' -> In (v', t') chain' ->
+    (forall k, vkey k -> trie_get V t k = trie_get V t' k) ->
+    t = t' /\ Res V (sget V s name) [] (SRef v) t /\ Res V (sget V s' name') [] (SRef v') t.
+  Proof. exact (ops_history_canonical V veqb veqb_sound name s chain P v t name' s' chain' P' v' t'). Qed.
+End C12_ops.
+
 (* ---- non-vacuity ---- *)
 Definition ex_store : store nat :=
   mkStore nat [(0, [], (3, 0), SShort [1%nat; 16%nat] (SValue 7%nat)); (0, [], (2, 0), SFull (repeat SNil 17))] [] 4 None.
@@ -326,6 +438,32 @@ Proof. exact x_survives. Qed.
 Example ex_link_check : link_check nat Nat.eqb 10 xs5 0 v3 (snd (wstore nat bigT false v3 [] xn3)) (Some v2) = 0.
 Proof. vm_compute. reflexivity. Qed.
 
+(* non-vacuity of the operation-list theorems (Store/ExamplesWork.v): five blocks given only by Get / Update lists — block 1
+   ends with a no-op update, block 2 deletes below a referenced branch, block 3 collapses and splits at the root —, a round
+   [0,2) after block 3, and block 4 whose operations load a node that only the deduped space still holds *)
+Example ex_ops_history : OpsHistory nat Nat.eqb 0 ys4 yc4 0.
+Proof. exact yH4. Qed.
+Example ex_ops_history_pruned : OpsHistory nat Nat.eqb 0 ys6 yc6 2.
+Proof. exact yH6. Qed.
+Example ex_ops_reads :
+  open_root nat 12 ys6 0 v4 = Some yt4 /\ open_root nat 12 ys6 0 v3 = Some yt3 /\ open_root nat 12 ys6 0 v2 = Some yt2 /\
+  open_root nat 12 ys6 0 v1 = None.
+Proof. exact y_reads_after. Qed.
+Example ex_ops_content :
+  trie_get nat yt0 ka = Some 10%nat /\ trie_get nat yt1 kc = Some 2%nat /\
+  trie_get nat yt2 ka = None /\ trie_get nat yt2 kd = Some 30%nat /\ trie_get nat yt3 kc = None /\ trie_get nat yt3 ke = Some 5%nat /\
+  trie_get nat yt4 ka = Some 11%nat /\ trie_get nat yt4 kg = None /\ trie_get nat yt4 kf = Some 7%nat.
+Proof. exact y_tries. Qed.
+Example ex_ops_loads_deduped :
+  hist_find nat (hist nat ys5) 0 [5%nat] v0 = None /\ sget nat ys5 0 [5%nat] v0 <> None /\
+  (exists w, wt_run nat Nat.eqb (sget nat ys5 0) yops4 (head_handle nat yc5) = Some w /\ w <> WNil).
+Proof. exact y_handle4_loaded. Qed.
+Example ex_ops_good_start : Good nat (sget nat ys5 0) (head_old nat (sget nat ys5 0) yc5) [] (head_handle nat yc5) (head_trie nat yc5).
+Proof.
+  apply (head_handle_good nat ys5 0 yc5 2).
+  apply (History_Inv nat 0 ys5 yc5 2). apply (ops_history_sound nat Nat.eqb nat_eqb_sound 0 ys5 yc5 2). exact yH5.
+Qed.
+
 Print Assumptions commit_preserves_roots.
 Print Assumptions resolve_independent_of_cache.
 Print Assumptions commit_reads_back.
@@ -354,3 +492,14 @@ Print Assumptions pruned_state_fails_partial.
 Print Assumptions root_is_mpt.
 Print Assumptions prune_dead_fork_refuted.
 Print Assumptions ex_history_round2.
+Print Assumptions worktrie_update_refines.
+Print Assumptions worktrie_get_refines.
+Print Assumptions worktrie_insert_refines.
+Print Assumptions worktrie_delete_refines.
+Print Assumptions handle_derived_from_ops.
+Print Assumptions ops_commit_step.
+Print Assumptions ops_history_is_history.
+Print Assumptions prune_preserves_recent_rounds_from_ops.
+Print Assumptions prune_preserves_recent_from_ops.
+Print Assumptions root_is_mpt_from_ops.
+Print Assumptions ex_ops_history_pruned.
